@@ -79,6 +79,31 @@ CLAIMS = {
         "NOT decided: that the bytes between the quotes are exactly the escaped input."),
   note='Trusted: clang 14 front end; vector load/store widths (sv/primitives.py); PAGE_SIZE 4096.',
   design='5/C09'),
+ 'C10': dict(
+  category='proof',
+  technique='must-dominance dataflow (E2) and interval analysis (E3) over the on-demand entry functions',
+  text=("Decides ONLY the structural clauses: a path step into a value of the wrong kind reaches the mismatch error (the index step is dominated by c=='[', the key step by c=='{'); "
+        "GetArrayElem returns a non-zero code for every index < 0 (interval proof) and receives the signed index unchanged; every error travels negated; the wrapper clears the slice on error and builds it only from a non-negative start; "
+        "ParseOnDemand parses the target only on success. NOT decided - the bulk of the property: that the selected member/element agrees with the fully parsed DOM (differential semantic statement)."),
+  note='Trusted: clang 14 front end.',
+  design='5/C10'),
+ 'C11': dict(
+  category='proof',
+  technique='zone (difference-bound) abstract interpretation of cursor/limit/pointer offsets with automatically derived callee pre/post-conditions, partitioned by pointer provenance (E3); call-graph reachability; error-sign rule; dominance',
+  text=("Decides: (a) every read of the caller's buffer in the 13 functions of the unpadded family (subscripts, 16/32/64-byte vector loads, EqBytes4, memcpy/memcmp ranges) satisfies 0 <= off and off+width <= len on all paths, "
+        "with callee preconditions proved at every call site, return-value-conditional post-conditions, the cached-block class invariant of SkipScanner proved inductive, and SkipContainer's zero-padded tail tracked as a symbolic mask extent; "
+        "(b) the unpadded entry points cannot reach the padded-only skip_space; (c) every SonicError returned through an offset channel is negated; (d) the key memcmp is dominated by length equality; "
+        "(e) private decode buffers contain the closing quote and VEC_LEN-1 bytes of slack at both sibling sites. Run for static AVX2, static SSE and dynamic dispatch (join over target versions). "
+        "NOT decided: that a success slice is a sub-range of the input."),
+  note='Trusted: clang 14 front end; vector load widths; TrailingZeroes/to_bitmask range contracts; memcpy/memcmp ranges; parseStringInplace never grows the text; no size_t wrap on cursor/length (< 2^63); one buffer per SkipScanner (C02 E7.fresh-parser).',
+  design='5/C11'),
+ 'C20': dict(
+  category='proof',
+  technique='zone abstract interpretation of parseLazyImpl and its sibling site (E3), dominance on the ownership flag (E2)',
+  text=("Decides ONLY the clause 'keys are matched by their decoded value': the escaped key is decoded from a private copy that reaches the closing quote found by SkipString and has VEC_LEN-1 bytes of slack; "
+        "both sibling sites (parser.h, simd_skip.h) satisfy it; the key node is told it owns the buffer exactly when one was allocated; a decode error frees the buffer. NOT decided: the merge semantics."),
+  note='Trusted: clang 14 front end; C11 callee summaries; parseStringInplace contract.',
+  design='5/C20'),
 }
 NA_REASON = {
  'C19': 'Agreement with a recursive merge model over (document, text) pairs; no structural clause that is a necessary condition without mirroring the handler code (DESIGN.md section 7).',
